@@ -126,6 +126,11 @@ Definition do_uop (v : variant) (now : Z) (o : uop) (w : net) : net * list kc :=
   | URslvNew r node => (set_rslv w r (mkRslv node []), [])
   | UResolve r n port h => rslv_resolve cx r n port h w
   | URslvCancel r => rslv_cancel r w
+  | URslvDestroy r =>
+      (* ~basic_resolver (then a new resolver under the same name): the timer goes with it *)
+      let x := get_rslv w r in
+      let (w, c) := if d5_resolver_dtor v then rslv_cancel r w else (set_rslv w r {| r_node := r_node x; r_queue := [] |}, []) in
+      (w, c ++ [KDestroy (tid_rslv r)])
   | UPcapOn => (w <| w_pcap := Some [] |>, [])
   | USetNextPort n => (w <| w_next_port := n |>, [])
   | UHttpNew srv node port keep => http_new cx srv node port keep w
